@@ -187,7 +187,13 @@ func (this *contractExecutor) Execute(transaction *types.Transaction, header *ty
 	if common.IsProposal015() {
 		gasUsed := gasLimit - leftOverGas
 		gasFeeUsed := new(big.Int).Mul(new(big.Int).SetUint64(gasUsed), defaultGasPrice)
-		accountdb.SubBalance(common.HexToAddress(transaction.Source), gasFeeUsed)
+		source := common.HexToAddress(transaction.Source)
+		if balance := accountdb.GetBalance(source); balance.Cmp(gasFeeUsed) < 0 {
+			// the sender can have spent its balance during execution (AUTHCALL sponsor);
+			// never credit the fee account with more than is debited
+			gasFeeUsed = balance
+		}
+		accountdb.SubBalance(source, gasFeeUsed)
 		accountdb.AddBalance(common.FeeAccount, gasFeeUsed)
 		context["gasUsed"] = gasUsed
 	}
